@@ -197,6 +197,8 @@ func init() {
 			}
 			// stretched trivia: a gap filled with tens of thousands of blanks / blank lines, or a comment line longer than any
 			// line buffer; the record carries the text with one and with two units, the run uses `n` units
+			// more than a million comments in one text (a counter of comments, a recursion per comment ...)
+			cases = append(cases, Case{"cmd": "stretch", "kind": "comments", "n": 1100000, "prog": randomProg(rng, 3, 0.2, 7), "mode": "degree", "key": "", "seed": rng.Int63()})
 			for i, st := range []string{"blanks", "comment", "lines", "comment", "blanks", "tabs"} {
 				for _, nn := range []int{4093, 70001} {
 					mode, key := "degree", ""
@@ -291,11 +293,22 @@ func init() {
 					unit = "\n"
 				case "comment":
 					pre, unit, post = " ;", "x", "\n"
+				case "comments":
+					pre, unit = "\n", ";x\n"
 				}
 				mk := func(n int) string { return base[:at] + pre + strings.Repeat(unit, n) + post + base[at:] }
 				b1, _ := convRec(c, mode, key, mk(1))
 				b2, _ := convRec(c, mode, key, mk(2))
-				bn, bnout := convRec(c, mode, key, mk(ci(k, "n")))
+				var bn Rec
+				var bnout []byte
+				if ci(k, "n") > 500000 { // seconds of work: a generous watchdog, so that a loaded machine is not taken for a hang
+					args := append([]string{"text", "conv", mode}, keyArgs(key)...)
+					r := c.crdEnv(args, []byte(mk(ci(k, "n"))), nil, 600e9)
+					_, okp := projectInstances(r.Stdout)
+					bn, bnout = Rec{"ok": okp && r.Exit == 0, "terminated": !r.TimedOut, "panic": r.Panic, "exit": r.Exit}, r.Stdout
+				} else {
+					bn, bnout = convRec(c, mode, key, mk(ci(k, "n")))
+				}
 				delete(bn, "s") // too long to carry; the spec judges the one- and two-unit texts
 				delete(bn, "out")
 				return []Rec{{"kind": "stretch", "sub": cs(k, "kind"), "a": a, "b1": b1, "b2": b2, "bn": bn, "n": ci(k, "n"), "unit": chars(unit), "sameBytes": bytes.Equal(aout, bnout)}}
